@@ -113,7 +113,7 @@ PROPS = {
     "C08": {
         "jobs": [OBJ_CASTS],
         "accept": lambda job, cls, site, msg: cls.startswith("cast.") or ("!(" in site and cls.startswith("obj.")) or cls.startswith("crash.") or cls == "layout.optional_words",
-        "real": OBJ_REAL, "stub": OBJ_STUB, "assumptions": OBJ_ASSUME + ["the property asks for exhaustive enumeration of a finite matrix; this family samples, and reports the matrix cells (group x enabled set x requested set x operation x container) actually hit: 2680 exist for the corpus groups"],
+        "real": OBJ_REAL, "stub": OBJ_STUB, "assumptions": OBJ_ASSUME + ["the property asks for exhaustive enumeration of a finite matrix; this family samples, and reports the matrix cells (group x enabled set x requested set x operation x container) actually hit: 3120 exist for the corpus groups"],
     },
     "C13": {
         "jobs": [OBJ_INTRES, INTRES],
@@ -126,11 +126,13 @@ PROPS = {
 
 MOD_STABLE = PluginJob(6000, 200000, "stable-release-plugin_debug-host")
 MOD_STABLE_RH = PluginJob(3000, 100000, "stable-release-plugin_release-host", host_release=True)
-MOD_NIGHTLY1 = PluginJob(0, 100000, "nightly-randomized-layout-1", toolchain="nightly", rustflags="-Zrandomize-layout -Zlayout-seed=1")
-MOD_NIGHTLY2 = PluginJob(0, 100000, "nightly-randomized-layout-2", toolchain="nightly", rustflags="-Zrandomize-layout -Zlayout-seed=2")
-ALL_JOBS += [MOD_STABLE, MOD_STABLE_RH, MOD_NIGHTLY1, MOD_NIGHTLY2]
+# Rust-layout seeds: every repr(Rust) type of the plugin build is laid out differently per seed, so a
+# type that crosses the boundary without a fixed layout is seen by some of them (not by all: a
+# two-field struct keeps its order under about half of the seeds)
+MOD_NIGHTLY = [PluginJob(300 if k in (3, 5, 6) else 0, 25000, "nightly-randomized-layout-%d" % k, toolchain="nightly", rustflags="-Zrandomize-layout -Zlayout-seed=%d" % k) for k in range(1, 9)]
+ALL_JOBS += [MOD_STABLE, MOD_STABLE_RH] + MOD_NIGHTLY
 PROPS["C05"] = {
-    "jobs": [MOD_STABLE, MOD_STABLE_RH, MOD_NIGHTLY1, MOD_NIGHTLY2],
+    "jobs": [MOD_STABLE, MOD_STABLE_RH] + MOD_NIGHTLY,
     "accept": lambda job, cls, site, msg: cls != "ctx.clone_leak" and not cls.startswith("harness."),
     "real": ["plugin module: cdylib built separately from the same corpus (own compiler invocation, optimisation level, in the thorough tier another compiler version with randomized repr(Rust) layout), own tagging global allocator",
              "glibc dynamic loader (dlopen through libloading; the Library lives inside the reference-counted context, so the last release is dlclose)",
@@ -138,7 +140,7 @@ PROPS["C05"] = {
     "stub": ["implementors report to the host through a C-ABI callback table (no Rust type is shared across the boundary)", "host-side un-erased twin as reference"],
     "assumptions": OBJ_ASSUME + ["only boxed objects with the type-erased reference-counted context cross the boundary (what a plugin hands out)",
                                  "glibc keeps the module mapped after dlclose when plugin code ran on a thread that registered thread-local destructors; the evidence reports how often the module was really unmapped",
-                                 "quick tier: stable release plugin x stable debug and release hosts; thorough adds nightly plugins with -Zrandomize-layout seeds 1 and 2"],
+                                 "quick tier: stable release plugin x stable debug and release hosts; plus nightly plugins with -Zrandomize-layout seeds 3, 5, 6 at 300 plans each; thorough: nightly plugins with layout seeds 1 to 8"],
 }
 
 
@@ -163,7 +165,8 @@ PROPS["C19"]["extra_phases"] = [_miri([
 PROPS["C11"]["extra_phases"] = [_miri([{"package": "primsim", "engine": "vec", "free": False, "plans": 300, "seeds": 1}])]
 PROPS["C14"]["extra_phases"] = [_miri([{"package": "primsim", "engine": "cstr", "free": False, "plans": 300, "seeds": 1}])]
 PROPS["C15"]["extra_phases"] = [_miri([{"package": "primsim", "engine": "feed", "free": False, "plans": 300, "seeds": 1}])]
-PROPS["C13"]["extra_phases"] = [_miri([{"package": "primsim", "engine": "intres", "free": False, "plans": 300, "seeds": 1}])]
+PROPS["C13"]["extra_phases"] = [_miri([{"package": "primsim", "engine": "intres", "free": False, "plans": 300, "seeds": 1}]),
+                                lambda prop, tier, seed, report: __import__("gensim").phase_expander(prop, tier, seed, report)]
 PROPS["C06"]["extra_phases"] = [_miri([{"package": "primsim", "engine": "cbox", "free": False, "plans": 300, "seeds": 1}])]
 
 
